@@ -453,7 +453,7 @@ func GenHostile(t *rapid.T, o Options) ([]byte, []string, *Layout) {
 	truncate := -1
 	for i := 0; i < n; i++ {
 		kinds := []string{"sev-offset", "sev-length", "sev-count", "sev-sig", "sev-section-field", "tdx-offset", "tdx-length", "tdx-count", "tdx-sig-version", "tdx-section-field",
-			"footer-size", "entry-size", "duplicate-entry", "drop-reset", "truncate", "sev-count+length-consistent", "tdx-count+length-consistent", "tdx-private-memsize"}
+			"footer-size", "entry-size", "duplicate-entry", "drop-reset", "truncate", "sev-count+length-consistent", "tdx-count+length-consistent", "tdx-private-memsize", "tdx-fv-sum-wrap", "sev-sections-sum-wrap"}
 		k := rapid.SampledFrom(kinds).Draw(t, "hostileKind")
 		muts = append(muts, k)
 		switch k {
@@ -498,6 +498,22 @@ func GenHostile(t *rapid.T, o Options) ([]byte, []string, *Layout) {
 			} else {
 				l.Ov.TdxVersion = h32(t, "v")
 			}
+		case "tdx-fv-sum-wrap":
+			// two extra firmware-volume sections whose sizes add 2^32 to the volume total, so that a
+			// 32-bit sum of sizes (or offset+size) wraps back to a plausible value
+			d := uint32(rapid.IntRange(1, l.Spec.Size/4096).Draw(t, "wrapPages")) * 4096
+			off := uint32(rapid.SampledFrom([]int{0, 4096, l.Spec.Size - 4096, l.Spec.Size}).Draw(t, "wrapOff"))
+			if int(off) > l.Spec.Size {
+				off = 0
+			}
+			big := uint32(0) - d
+			l.Tdx = append(l.Tdx,
+				TdxSection{DataOffset: off, DataSize: big, MemoryBase: 0x7000000000, MemorySize: uint64(big), Type: TdxCFV},
+				TdxSection{DataOffset: 0, DataSize: d, MemoryBase: 0x6000000000, MemorySize: uint64(d), Type: TdxCFV})
+		case "sev-sections-sum-wrap":
+			// a section whose address+length wraps 32 bits next to one it then overlaps
+			l.Sev = append(l.Sev, SevSection{Address: 0xfffff000, Length: uint32(rapid.SampledFrom([]int{0x2000, 0x1000, 0xfffff000}).Draw(t, "wrapLen")), Kind: SevUnmeasured},
+				SevSection{Address: 0, Length: 0x1000, Kind: SevUnmeasured})
 		case "tdx-private-memsize":
 			for j := range l.Tdx {
 				if l.Tdx[j].Type == TdxTDHOB || l.Tdx[j].Type == TdxTempMem {
